@@ -330,3 +330,75 @@ def shape_of(prog):
     if len(nr) >= 14:
         f.add("register-pressure")
     return f
+
+
+GATE_SHAPES = {"init": (1, 0), "x": (1, 0), "y": (1, 0), "z": (1, 0), "h": (1, 0), "s": (1, 0), "k": (1, 0), "t": (1, 0),
+               "rot_x": (1, 2), "rot_y": (1, 2), "rot_z": (1, 2), "cnot": (2, 0), "cphase": (2, 0), "mov": (2, 0),
+               "crot_x": (2, 2), "crot_y": (2, 2), "crot_z": (2, 2)}
+
+
+def gen_q_prog(rng, rows, cap=5):
+    """a program with non-classical instructions of the flavour (qalloc, init, gates, rotations, two-qubit gates,
+    controlled rotations, meas, qfree) mixed with classical ones: qubit ids from Q registers or literals, branches
+    on measurement outcomes, returns; EPR instructions are left out (they need a network stack)"""
+    gates = [r["mnemonic"] for r in rows if r["mnemonic"] in GATE_SHAPES]
+    qregs = [["reg", 2, i] for i in rng.sample(range(16), rng.randint(1, 3))]
+    mregs = [["reg", 3, i] for i in rng.sample(range(16), rng.randint(1, 3))]
+    rregs = [["reg", 0, i] for i in rng.sample(range(16), rng.randint(1, 4))]
+    p_lit = rng.choice([0.0, 0.3, 0.6])
+    prog = []
+
+    def qv():
+        return ["lit", rng.randint(0, cap)] if rng.random() < p_lit else rng.choice(qregs)
+
+    ids = rng.sample(range(cap), len(qregs))
+    for q, qid in zip(qregs, ids):
+        if rng.random() < 0.95:
+            prog.append(["ins", "set", [], [q, ["lit", qid if rng.random() < 0.93 else rng.randint(0, cap)]]])
+    for r in rregs:
+        if rng.random() < 0.8:
+            prog.append(["ins", "set", [], [r, ["lit", rng.randint(0, 3)]]])
+    for r in mregs:
+        if rng.random() < 0.5:
+            prog.append(["ins", "set", [], [r, ["lit", rng.randint(0, 1)]]])
+    for q in qregs:
+        if rng.random() < 0.92:
+            prog.append(["ins", "qalloc", [], [q]])
+            if rng.random() < 0.8:
+                prog.append(["ins", "init", [], [q]])
+    labels = []
+    for _ in range(rng.randint(1, 10)):
+        m = rng.random()
+        if m < 0.5 and gates:
+            mn = rng.choice(gates)
+            nq, ni = GATE_SHAPES[mn]
+            prog.append(["ins", mn, [], [qv() for _ in range(nq)] + [["lit", rng.randint(0, 15)] for _ in range(ni)]])
+        elif m < 0.65:
+            c = rng.choice(mregs)
+            prog.append(["ins", "meas", [], [qv(), c]])
+            if rng.random() < 0.5:
+                l = "M%d" % len(labels)
+                labels.append(l)
+                prog.append(["ins", rng.choice(["bez", "bnz"]), [], [c, ["label", l]]])
+        elif m < 0.68:
+            prog.append(["ins", "qalloc", [], [qv()]])
+        elif m < 0.72:
+            prog.append(["ins", "qfree", [], [qv()]])
+        elif m < 0.8:
+            prog.append(["ins", "set", [], [rng.choice(rregs), ["lit", rng.randint(0, 3)]]])
+        elif m < 0.88:
+            prog.append(["ins", rng.choice(["add", "sub"]), [], [rng.choice(rregs), rng.choice(rregs + mregs),
+                                                               ["lit", rng.randint(0, 3)]]])
+        elif m < 0.94:
+            prog.append(["ins", "ret_reg", [], [rng.choice(mregs + rregs)]])
+        elif labels:
+            prog.append(["lab", labels.pop(0)])
+    for l in labels:
+        prog.append(["lab", l])
+    for c in mregs:
+        if rng.random() < 0.5:
+            prog.append(["ins", "ret_reg", [], [c]])
+    for q in qregs:
+        if rng.random() < 0.4:
+            prog.append(["ins", "qfree", [], [q]])
+    return prog
